@@ -21,6 +21,7 @@ import IocProofs.Lemmas.SemPrepare
 import IocProofs.Lemmas.SemProcessors
 import IocProofs.Lemmas.SemAppRun
 import IocProofs.Lemmas.SemSmall
+import IocProofs.Lemmas.OrderRoutes
 namespace Ioc.C12
 open Ioc Ioc.Order
 
@@ -730,5 +731,35 @@ theorem C12_code_registered_once (nameOf : Nat → String) (i : Nat) (w : Sem.CM
        | some j => if j = i then some (.tuple [], w) else none) ∧
     Go.run Sem.srPrims Progs.sreg_GetSingletonNames [] w = some (Sem.strsNil (w.map (·.1)), w) :=
   ⟨Sem.registerSingleton_sem nameOf i w, Sem.sregNames_sem w⟩
+
+/-! ### one instance that reaches the registry through several routes is ONE participant (ninth round)
+
+`registerSingleton` / `registerAll` model `registry.RegisterSingleton` under `app.SetComponents` (code tie:
+`C12_code_registered_once` above); correspondence: markers `t` (listed twice in one SetComponents call) and `u` (listed
+again in a second SetComponents option) of the `orderstart` lines. -/
+
+/-- However often and through however many options instances are registered, the registry — the list PrepareComponents
+    walks — holds one entry per name, and nobody who was registered is missing. -/
+theorem C12_registered_each_once {ν : Type} [DecidableEq ν] (name : α → ν) (regs : List α) :
+    ((registerAll name regs).map name).Nodup ∧ ∀ x ∈ regs, name x ∈ (registerAll name regs).map name :=
+  ⟨registerAll_nodup name regs, registerAll_mem name regs⟩
+
+/-- The application's own list `l` (instances with names of their own, any of them listed twice) followed by any further
+    registrations of instances of that list (a module's option bundle, `ioc.Register`): the registry holds exactly `l`. -/
+theorem C12_registered_routes {ν : Type} [DecidableEq ν] (name : α → ν) (twice : α → Bool) (l extra : List α)
+    (hn : (l.map name).Nodup) (he : ∀ x ∈ extra, name x ∈ l.map name) :
+    registerAll name (listed twice l ++ extra) = l :=
+  registerAll_routes name twice l extra hn he
+
+/-- …so the sequence the container builds from it has every participant exactly once, whichever routes it came by. -/
+theorem C12_twice_registered_appears_once {ν : Type} [DecidableEq ν] (hs : SortSpec part sort) (name : α → ν)
+    (twice : α → Bool) (l extra : List α) (hn : (l.map name).Nodup) (he : ∀ x ∈ extra, name x ∈ l.map name) :
+    (sortOrdered sort part (registerAll name (listed twice l ++ extra))).Perm l := by
+  rw [registerAll_routes name twice l extra hn he]
+  exact sortOrdered_perm hs l
+
+/-- non-vacuity: participants 5 and 7 each come by two routes (5 twice in the list, 7 and 5 again in a second option) -/
+example : registerAll (fun n : Nat => n) (listed (fun n => n == 5) [7, 5, 9] ++ [7, 5]) = [7, 5, 9] := by decide
+example : ([7, 5, 9].map (fun n : Nat => n)).Nodup ∧ ∀ x ∈ [7, 5], (fun n : Nat => n) x ∈ [7, 5, 9].map (fun n : Nat => n) := by decide
 
 end Ioc.C12
